@@ -25,8 +25,9 @@ M = [
  ("c02-last-attr-nopad", "C02", "message.go", "if len(b) < aBuffL { // checking size", "if len(b) < aBuffL && len(b) < aL { // checking size"),
  # C03
  ("c03-no-pad-zero", "C03", "message.go", "for i := range buf {\n\t\t\tbuf[i] = 0\n\t\t}", "for i := range buf {\n\t\t\t_ = i\n\t\t}"),
- ("c03-mi-length-not-restored", "C03", "integrity.go", "msg.Length = length                              // changing m.Length back", "_ = length"),
- ("c03-encode-no-length-reset", "C03", "message.go", "m.WriteHeader()\n\tm.Length = 0\n\tm.WriteAttributes()", "m.WriteHeader()\n\tm.WriteAttributes()"),
+ ("c03-mi-length-not-restored", "C03", "integrity.go", "msg.Length = length                                    // changing m.Length back", "_ = length"),
+ ("c03-encode-no-length-reset", "C03", "message.go", "m.Length = 0\n\tm.WriteHeader()\n\tm.WriteAttributes()", "m.WriteHeader()\n\tm.WriteAttributes()"),
+ ("c03-encode-f19-revert", "C03", "message.go", "m.Length = 0\n\tm.WriteHeader()\n\tm.WriteAttributes()", "m.WriteHeader()\n\tm.Length = 0\n\tm.WriteAttributes()"),
  ("c03-settype-struct-only", "C03", "message.go", "func (m *Message) SetType(t MessageType) {\n\tm.Type = t\n\tm.WriteType()", "func (m *Message) SetType(t MessageType) {\n\tm.Type = t"),
  # C04
  ("c04-sizereduced-nopad", "C04", "integrity.go", "sizeReduced += nearestPaddedValueLength(int(a.Length))", "sizeReduced += int(a.Length)"),
@@ -74,9 +75,13 @@ M = [
  # C10
  ("c10-no-once-guard", "C10", "client.go", "if atomic.AddInt32(&t.calls, 1) == 1 {", "if atomic.AddInt32(&t.calls, 1) >= 1 {"),
  ("c10-f5-revert", "C10", "client.go", "\tif closed {\n\t\t// The client is closing", "\tif closed {\n\t\treturn\n\t}\n\tif closed {\n\t\t// The client is closing"),
- ("c10-maxattempts-lt", "C10", "client.go", "if atomic.LoadInt32(&c.maxAttempts) <= transaction.attempt || event.Error == nil {", "if atomic.LoadInt32(&c.maxAttempts) < transaction.attempt || event.Error == nil {"),
- ("c10-f10-revert", "C10", "client.go", "\t\tif !c.delete(id) {\n\t\t\t// A response (or Close) completed", "\t\tif c.delete(id); false {\n\t\t\t// A response (or Close) completed"),
- ("c10-start-err-keeps-tx", "C10", "client.go", "\t\tif !c.delete(msg.TransactionID) {", "\t\tif false {"),
+ ("c10-maxattempts-lt", "C10", "client.go", "atomic.LoadInt32(&c.maxAttempts) > transaction.attempt", "atomic.LoadInt32(&c.maxAttempts) >= transaction.attempt"),
+ ("c10-f10-revert", "C10", "client.go", "\t\tif !c.delete(transaction, id, gen) {\n\t\t\t// A response (or Close) completed", "\t\tif c.delete(transaction, id, gen); false {\n\t\t\t// A response (or Close) completed"),
+ ("c10-f18-revert", "C10", "client.go", "\tfound = found && cur == t && cur.gen == gen\n", "\t_, _ = cur, gen\n"),
+ ("c10-f18-no-generation", "C10", "client.go", "\tfound = found && cur == t && cur.gen == gen\n", "\tfound = found && cur == t\n\t_ = gen\n"),
+ ("c10-f16-revert-window", "C12", "client.go", "\t} else if found {\n\t\tdelete(c.t, transaction.id)\n\t}\n\tc.mux.Unlock()", "\t}\n\tif found {\n\t\tdelete(c.t, transaction.id)\n\t}\n\tc.mux.Unlock()\n\tif retransmit {\n\t\t_ = c.clock.Now()\n\t\tc.mux.Lock()\n\t\tc.t[id] = transaction\n\t\tc.mux.Unlock()\n\t}"),
+ ("c10-f15-revert", "C10", "client.go", "\t\t\tif !c.delete(t, msg.TransactionID, gen) {\n\t\t\t\t// Completed concurrently after it was registered", "\t\t\tif true {\n\t\t\t\treturn err\n\t\t\t}\n\t\t\tif !c.delete(t, msg.TransactionID, gen) {\n\t\t\t\t// Completed concurrently after it was registered"),
+ ("c10-start-err-keeps-tx", "C10", "client.go", "\tif err != nil && handler != nil {\n\t\tif !c.delete(t, msg.TransactionID, gen) {", "\tif err != nil && handler != nil {\n\t\tif false {"),
  # C11
  ("c11-f6-revert", "C11", "client.go", "buff.buf = append(buff.buf[:0], transaction.raw...)", "buff.buf = buff.buf[:copy(buff.buf[:cap(buff.buf)], transaction.raw)]"),
  ("c11-raw-alias", "C11", "client.go", "t.raw = append(t.raw[:0], msg.Raw...)", "t.raw = msg.Raw"),
@@ -111,7 +116,11 @@ M = [
  ("dbg-hmac-prefix", "C04", "checks_debug.go", "if hmac.Equal(got, expected) {", "if len(got) > 0 && len(got) <= len(expected) && hmac.Equal(got, expected[:len(got)]) {"),
  ("dbg-fingerprint-lowbyte", "C05", "checks_debug.go", "func checkFingerprint(got, expected uint32) error {\n\tif got == expected {", "func checkFingerprint(got, expected uint32) error {\n\tif uint8(got) == uint8(expected) {"),
  ("c15-rto-nonatomic-read", "C15", "client.go", "t.rto = time.Duration(atomic.LoadInt64(&c.rto))", "t.rto = time.Duration(c.rto)"),
- ("c15-closed-unlocked-read", "C15", "client.go", "\tc.mux.RLock()\n\tclosed := c.closed\n\tc.mux.RUnlock()\n\tif closed {\n\t\treturn ErrClientClosed\n\t}\n\tif handler != nil {", "\tclosed := c.closed\n\tif closed {\n\t\treturn ErrClientClosed\n\t}\n\tif handler != nil {"),
+ ("c15-closed-unlocked-read", "C15", "client.go", "\tc.mux.RLock()\n\tclosed := c.closed\n\tc.mux.RUnlock()\n\tif closed {\n\t\treturn ErrClientClosed\n\t}\n\tvar (", "\tclosed := c.closed\n\tif closed {\n\t\treturn ErrClientClosed\n\t}\n\tvar ("),
+ ("c05-f14-revert", "C05", "fingerprint.go", "val := FingerprintValue(m.Raw[:end])", "val := FingerprintValue(m.Raw)"),
+ ("c04-f14-revert", "C04", "integrity.go", "v := newHMAC(i, msg.Raw[:end], msg.Raw[len(msg.Raw):])", "v := newHMAC(i, msg.Raw, msg.Raw[len(msg.Raw):])"),
+ ("c06-f20-revert", "C06", "errorcode.go", "uint16(value[errorCodeClassByte] & 0x07)", "uint16(value[errorCodeClassByte])"),
+ ("c20-f17-revert", "C20", "integrity.go", "if err == nil || err == ErrIntegrityMismatch {", "if err == nil {"),
 ]
 
 def sh(cmd, cwd=None, timeout=3600):
